@@ -59,7 +59,7 @@ def skeletons(tier):
         "vars": {"LV": 3}, "late": ["LV"], "order": ["R", "K"]}))
     # reference cycles: a function calling itself, and two functions calling each other (guarded by the argument)
     progs.append(("cycles", {
-        "funcs": [mkfunc("R", calls=[call("R", "rec"), call("D", "rec")], rich=False), mkfunc("D", calls=[call("R", "rec"), call("P")], rich=False),
+        "funcs": [mkfunc("R", calls=[call("R", "rec"), call("D", "rec")], rich=False), mkfunc("D", calls=[call("R", "rec"), call("P", "rec")], rich=False),
                   mkfunc("P", kind="plain", calls=[call("D", "rec")], rich=False)],
         "vars": {}}))
     # several tracked variables holding equal values: an edit may give one the value another one has (or had)
